@@ -241,10 +241,13 @@ def gen_case(rng, tier, i):
                 ops.append(["query", kind, g, t])
             else:
                 p = _mask(rng, some_triple(g))
-                if None not in p:
-                    p[rng.randint(0, 2)] = None
                 p = [x if x not in BNODES else None for x in p]
-                ops.append(["slice"] + p + [g, rng.choice([None, 1, 2, 5]), rng.choice([None, 0, 1, 2])])
+                if None not in p and rng.random() < 0.5:
+                    p[rng.randint(0, 2)] = None
+                if None in p:
+                    ops.append(["slice"] + p + [g, rng.choice([None, 1, 2, 5]), rng.choice([None, 0, 1, 2])])
+                else:   # fully bound (ASK) under a LIMIT
+                    ops.append(["slice"] + p + [g, rng.choice([1, 2, 5]), None])
     if not autocommit and rng.random() < 0.6:
         ops.append(rng.choice([["commit"], ["rollback"], ["len", wgraph()]]))
     return {"cfg": cfg, "method": rng.choice(["GET", "POST", "POST_FORM"]), "fmt": rng.choice(["xml", "json"]),
